@@ -3,6 +3,7 @@ package fzf
 import (
 	"errors"
 	"fmt"
+	"math"
 	"os"
 	"regexp"
 	"strconv"
@@ -752,7 +753,8 @@ func atoi(str string) (int, error) {
 
 func atof(str string) (float64, error) {
 	num, err := strconv.ParseFloat(str, 64)
-	if err != nil {
+	// ParseFloat accepts "NaN", which passes every range check
+	if err != nil || math.IsNaN(num) {
 		return 0, errors.New("not a valid number: " + str)
 	}
 	return num, nil
